@@ -26,7 +26,7 @@ def parse_fsnap(out):
         for tok in rest.split():
             if "=" in tok and tok[0] in "omj":
                 ft, _, val = tok.partition("=")
-                cols[ft] = [[float(v) for v in c.split(",")] if c else [] for c in val.split(";")]
+                cols[ft] = [[(None if v == "big" else float(v)) for v in c.split(",")] if c else [] for c in val.split(";")]
         res[int(i)] = (kind, cols)
     return res
 
@@ -61,8 +61,19 @@ class Check(PropertyCheck):
         f = gen.gen_filter(rng)
         if gen.has_zero(jobs):
             f = None
+        long_times = rng.random() < 0.08
+        if long_times:
+            # absolute times beyond 2**24 while the features (relative to the current time) stay small: every job
+            # starts with an operation of exactly 2**24 ticks
+            jobs = [[(job[0][0], 2 ** 24)] + [(ms, max(d, 1)) for ms, d in job[1:]] for job in jobs]
+            family += "+long"
+            f = None
         lines = ["new", instance_line(jobs), gen.filter_line(f), "mark probe"]
         kinds = rng.sample(FEATURE_KINDS, rng.randint(2, 7))
+        if long_times:
+            kinds = [k for k in kinds if k != "duration"] or ["earliest_start_time"]
+            if "earliest_start_time" not in kinds:
+                kinds.append("earliest_start_time")
         ids = []
         nid = 0
         for k in kinds:
@@ -137,6 +148,8 @@ class Check(PropertyCheck):
         snap = parse_fsnap(out)
 
         def bad(kind, what, i, got, want):
+            if got is None or abs(want) >= 2 ** 24:
+                return          # float32 features are not exact from 2**24 on: outside the comparison
             site = f"{kind}:{what}"
             res.append((site, f"after `{scenario.lines[index - 1]}`: {kind} feature {what}[{i}] = {got}, recomputation "
                         f"from the schedule gives {want}"))
